@@ -230,29 +230,100 @@ def audit_for(prop, repo='/repo', limit=None):
     return out
 
 
+ALL_PROPS = ['C%02d' % i for i in range(1, 21)]
+
+
+def _patched_facts(diff):
+    import subprocess
+    d = scratch_copy()
+    try:
+        r = subprocess.run(['patch', '-p1', '-s', '-f', '-i', diff], cwd=d, capture_output=True, text=True)
+        if r.returncode != 0:
+            return None, 'DOES-NOT-APPLY'
+        try:
+            return scratch_facts(d), None
+        except extract.ExtractError as e:
+            return None, 'BROKEN ' + str(e)[-300:]
+    finally:
+        shutil.rmtree(d, ignore_errors=True)
+
+
+def run_diff(path):
+    """a stored behaviour-preserving refactoring: every property must stay silent"""
+    name = 'refactors/' + os.path.basename(path)
+    F, err = _patched_facts(path)
+    if F is None:
+        return name, 'SKIP', err
+    alarms = []
+    for prop in ALL_PROPS:
+        vs = [v for v in violations_for(prop, F) if v['key'] not in baseline(prop)]
+        if vs:
+            alarms.append('%s %s' % (prop, sorted({v['rule'] for v in vs})))
+    return name, 'FAIL' if alarms else 'ok', '; '.join(alarms) if alarms else 'all 20 properties silent'
+
+
+def run_seed(sd):
+    """a kept seeded change: the property it was written against must report it"""
+    name = 'seeded/' + os.path.basename(sd)
+    prop = os.path.basename(sd).split('-')[0]
+    F, err = _patched_facts(os.path.join(sd, 'patch.diff'))
+    if F is None:
+        return name, 'SKIP', err
+    vs = [v for v in violations_for(prop, F) if v['key'] not in baseline(prop)]
+    if vs:
+        return name, 'ok', '%s detected by %s' % (prop, sorted({v['rule'] for v in vs}))
+    return name, 'FAIL', '%s MISSED' % prop
+
+
+def _work(item):
+    kind, path = item
+    try:
+        if kind == 'mutant':
+            return run_one(path)
+        if kind == 'diff':
+            return run_diff(path)
+        return run_seed(path)
+    except Exception as e:  # a crash of the rule engine on a variant is a failure of the audit, not of the run
+        import traceback
+        return os.path.basename(path), 'CRASH', traceback.format_exc()[-400:]
+
+
 def main():
+    """python3 sa/selftest.py [--jobs N] [--mutants] [--diffs] [--seeds] [name-substring ...]   (default: mutants only)"""
     args = sys.argv[1:]
     jobs = 4
     if '--jobs' in args:
         i = args.index('--jobs')
         jobs = int(args[i + 1])
         del args[i:i + 2]
-    files = sorted(glob.glob(os.path.join(VERIF, 'mutants', '*.json')))
+    kinds = {k for k in ('--mutants', '--diffs', '--seeds', '--all') if k in args}
+    args = [a for a in args if not a.startswith('--')]
+    if not kinds:
+        kinds = {'--mutants'}
+    if '--all' in kinds:
+        kinds = {'--mutants', '--diffs', '--seeds'}
+    items = []
+    if '--mutants' in kinds:
+        items += [('mutant', f) for f in sorted(glob.glob(os.path.join(VERIF, 'mutants', '*.json')))]
+    if '--diffs' in kinds:
+        items += [('diff', f) for f in sorted(glob.glob(os.path.join(VERIF, 'refactors', '*.diff')))]
+    if '--seeds' in kinds:
+        items += [('seed', d) for d in sorted(glob.glob(os.path.join(VERIF, 'seeded', 'C*-*')))]
     if args:
-        files = [f for f in files if any(a in os.path.basename(f) for a in args)]
-    for f in files:
-        m = json.load(open(f))
-        for e in m.get('expect', []):
-            baseline(e[0])
+        items = [(k, f) for k, f in items if any(a in os.path.basename(f) for a in args)]
+    # baselines are computed once here and inherited by the forked workers
+    for prop in ALL_PROPS:
+        baseline(prop)
     t0 = time.time()
     bad = 0
-    # extraction is serialised by a lock; threads only overlap the Python rule work
-    with ThreadPoolExecutor(max_workers=jobs) as ex:
-        for name, st, msg in ex.map(run_one, files):
-            print('%-44s %-14s %s' % (name, st, msg))
-            if st != 'ok':
+    import multiprocessing
+    ctxm = multiprocessing.get_context('fork')
+    with ctxm.Pool(jobs) as pool:
+        for name, st, msg in pool.imap(_work, items):
+            print('%-44s %-14s %s' % (name, st, msg[:400]), flush=True)
+            if st not in ('ok', 'SKIP'):
                 bad += 1
-    print('%d entries, %d failing, %.1fs' % (len(files), bad, time.time() - t0))
+    print('%d entries, %d failing, %.1fs' % (len(items), bad, time.time() - t0))
     return 1 if bad else 0
 
 
